@@ -8,6 +8,7 @@
   characterises the re-entrant case exactly.
 -/
 import Cobweb.Syscall
+import Cobweb.Proofs.SyscallFrame
 
 namespace Cobweb.Sc
 
@@ -175,5 +176,44 @@ theorem once_leaves_cache (p : SProg) (fuel : Nat) (st : SSt) (key x : Nat) (hop
 /-- Non-vacuity: a fresh world, one leaf call. -/
 example : (exec ⟨fun _ _ _ => [], fun _ _ => false⟩ 2 ({} : SSt) (.call ⟨.f, 0, 5⟩)).2 = some 500 := by
   rw [syscall_leaf _ 1 _ 0 5 rfl rfl]; rfl
+
+/-! ### arbitrary nesting: independence and persistence (by induction on the fuel) -/
+
+/-- **Independence between keys, for every program, every fuel and every nesting depth**: an executor run (a call through
+    any entry point, the application of a queued command, a flush) that is not itself aimed at the stored system `(class,
+    key)`, for a program that never names it and with nothing queued that names it, leaves it exactly as it was. -/
+theorem independent_of_unnamed_keys (p : SProg) (i : Nat × Nat)
+    (hp : ∀ kind key cnt, ∀ op ∈ p.ops kind key cnt, opId op ≠ some i) (fuel : Nat) (st : SSt) (t : Task)
+    (hw : wqOK i st) (ht : taskId t ≠ some i) : look (exec p fuel st t).1 i.1 i.2 = look st i.1 i.2 :=
+  (exec_frm p i hp fuel st t hw ht).1
+
+/-- **State persists across calls with the same key**, whatever else happens in between and whatever the bodies do: after
+    any sequence of top-level tasks in which only `syscall`s (`named_syscall`s) of `key` name that key, the stored counter is
+    the initial one plus the number of those calls — so the n-th call runs with `Local` counter n − 1 (`call_result`). -/
+theorem counter_counts_calls (p : SProg) (fuel : Nat) (kind : SKind) (key : Nat) (hk : kind = .f ∨ kind = .n)
+    (hp : ∀ k' key' cnt, ∀ op ∈ p.ops k' key' cnt, opId op ≠ some (cls kind, key)) (ts : List Task) (st : SSt)
+    (hw : wqOK (cls kind, key) st) (hts : ∀ t ∈ ts, isCallOf kind key t = true ∨ taskId t ≠ some (cls kind, key)) :
+    cntOf (look (runTasks p (fuel + 1) st ts) (cls kind) key) = cntOf (look st (cls kind) key) + ts.countP (isCallOf kind key) :=
+  (state_counts_calls p fuel kind key hk hp ts st hw hts).1
+
+/-- Non-vacuity: key 1 (exclusive) calls key 2 directly and queues key 3; key 2 queues a write and a call of key 3; key 3 is
+    a leaf. Nobody but the top level names key 1: after `call 1, call 2, call 1` its counter is 2 (and key 3, called from
+    everywhere, has run five times). -/
+def nestP : SProg :=
+  { ops := fun kind key _ => match kind, key with
+      | .f, 1 => [.d ⟨.f, 2, 5⟩, .q ⟨.f, 3, 6⟩]
+      | .f, 2 => [.w 4, .q ⟨.f, 3, 8⟩]
+      | _, _ => [],
+    excl := fun kind key => match kind, key with | .f, 1 => true | _, _ => false }
+
+example : (runTasks nestP 30 {} [.call ⟨.f, 1, 7⟩, .call ⟨.f, 2, 1⟩, .call ⟨.f, 1, 9⟩]).fstore 1 = some 2 ∧
+    (runTasks nestP 30 {} [.call ⟨.f, 1, 7⟩, .call ⟨.f, 2, 1⟩, .call ⟨.f, 1, 9⟩]).fstore 3 = some 5 := by decide
+
+example : ∀ kind key cnt, ∀ op ∈ nestP.ops kind key cnt, opId op ≠ some (cls .f, 1) := by
+  intro kind key cnt op hop
+  simp only [nestP] at hop
+  split at hop <;> simp at hop
+  · rcases hop with rfl | rfl <;> simp [opId, cls]
+  · rcases hop with rfl | rfl <;> simp [opId, cls]
 
 end Cobweb.Sc
